@@ -59,8 +59,25 @@ const l3Desc = "schemaGenerator.generateRootType + File.Generate + Sources (gofm
 const l3Bounds = "one property x (plus one member p for object kinds, items for array kinds); exact-grid numbers (n/4, |.| <= 2^36); limits 1..2^20; document arrays <= N elements, untyped values nested <= 1 array level; E=1 extra member; regions of recorded findings owned by other properties are excluded"
 
 func l3Unit(name string, params map[string]int, only string, what string) Unit {
+	q := mergeParams(l3Base, params)
 	return Unit{Name: "generator+emitted-code/" + name, Harness: "pkg/generator:HarnessL3", Layer: "L3",
-		Desc: l3Desc + " -- " + what, Bounds: l3Bounds, Quick: mergeParams(l3Base, params), Panic: "inconclusive", Only: only}
+		Desc: l3Desc + " -- " + what, Bounds: l3Bounds, Quick: q, Thor: deeper(q), Panic: "inconclusive", Only: only}
+}
+
+// deeper: the thorough tier of a shape-grammar unit: document arrays one element longer (up to
+// 3), two extra members per object/map, nullable type lists in either order.
+func deeper(q map[string]int) map[string]int {
+	t := mergeParams(q, map[string]int{"E": 2, "ORDER": 1})
+	if _, nodoc := q["NODOC"]; !nodoc {
+		n := q["N"]
+		if n == 0 {
+			n = 2
+		}
+		if n < 3 {
+			t["N"] = n + 1
+		}
+	}
+	return t
 }
 
 // collidingNamesUnit: definitions whose names normalise to one Go identifier (shared by C10,
@@ -85,7 +102,7 @@ func parsedUnit(only string) Unit {
 // l3UnitT: an L3 unit whose thorough tier uses other parameters than the quick tier.
 func l3UnitT(name string, quick, thor map[string]int, only string, what string) Unit {
 	u := l3Unit(name, quick, only, what)
-	u.Thor = mergeParams(l3Base, thor)
+	u.Thor = deeper(mergeParams(l3Base, thor))
 	return u
 }
 
@@ -199,8 +216,8 @@ func init() {
 	reg(&Property{ID: "C01", Units: append(l3All("C01."),
 		l3Unit("min-sized-ints", map[string]int{"KINDS": 4, "DEPTH": 0, "MINSIZED": 1}, "C01.", "integer properties with --min-sized-ints on and off: every bound literal fits the sized type that was chosen"),
 		l3Unit("defaults", map[string]int{"KINDS": 15, "DEPTH": 0, "DEFAULTS": 1, "NUMSHAPES": 3, "STRSHAPES": 3, "NONULL": 1}, "C01.", "properties with a default together with value constraints (default + validator interplay in the emitted method)"),
-		l3UnitT("option-combinations", map[string]int{"KINDS": 16383, "DEPTH": 1, "N": 1, "DESC": 1, "CFG": 1, "NODOC": 1, "NUMSHAPES": 2, "STRSHAPES": 2, "ARRSHAPES": 1, "NULLABLE": 0},
-			map[string]int{"KINDS": 16383, "DEPTH": 1, "N": 1, "DESC": 1, "CFG": 1, "NODOC": 1, "NUMSHAPES": 2, "STRSHAPES": 2, "ARRSHAPES": 2}, "C01.",
+		l3UnitT("option-combinations", map[string]int{"KINDS": 32767, "DEPTH": 1, "N": 1, "DESC": 1, "CFG": 1, "NODOC": 1, "NUMSHAPES": 2, "STRSHAPES": 2, "ARRSHAPES": 1, "NULLABLE": 0},
+			map[string]int{"KINDS": 32767, "DEPTH": 1, "N": 1, "DESC": 1, "CFG": 1, "NODOC": 1, "NUMSHAPES": 2, "STRSHAPES": 2, "ARRSHAPES": 2}, "C01.",
 			"every kind of the grammar (incl. typed maps, string-or-null enums) at depth <= 1 x all 32 combinations of --only-models, --extra-imports, --struct-name-from-title, --tags yaml, --capitalization x descriptions/titles with newlines, quotes, backticks, comment terminators and format verbs: the emitted file type-checks against its own imports and is gofmt-stable (no document is decoded in this unit)"),
 		l3Unit("pattern-text", map[string]int{"KINDS": 49, "DEPTH": 1, "ITEMKINDS": 1, "PATTEXT": 1, "NODOC": 1, "ARRSHAPES": 1}, "C01.",
 			"string properties (plain, nullable, required, via $ref, as array items and object members) whose pattern contains format verbs (%d, %%): the pattern reaches the emitted regexp call unchanged and the file type-checks"),
@@ -209,9 +226,13 @@ func init() {
 			"number/integer properties with multipleOf (integral, fractional, larger than a narrow type) with and without --min-sized-ints: the emitted remainder test type-checks (math import, operand conversions, constant operands)")),
 		Assumptions: []string{"go/types with the real dependency packages decides type-correctness; gofmt stability is checked on the text with hole identifiers (holes never sit in aligned columns)"}})
 	reg(&Property{ID: "C02", Units: append(l3All("C02."),
+		l3Unit("objects-with-additional-properties", map[string]int{"KINDS": 16384, "DEPTH": 1, "E": 2, "N": 1}, "C02.",
+			"an object with a declared property AND typed additionalProperties (struct with an AdditionalProperties map): valid documents are accepted, exactly the undeclared members that are present are collected in the map with their values, and marshal-back reproduces the declared values"),
 		l3Unit("defaults", map[string]int{"KINDS": 15, "DEPTH": 0, "DEFAULTS": 1, "NUMSHAPES": 4, "STRSHAPES": 3, "NONULL": 1}, "C02.",
 			"properties with a default that satisfies their own constraints: a document that omits (or nulls) the property is valid and must be accepted, whatever the constraints say about the Go zero value"))})
 	reg(&Property{ID: "C03", Units: append(l3All("C03."), collidingNamesUnit("C03."),
+		l3Unit("objects-with-additional-properties", map[string]int{"KINDS": 16384, "DEPTH": 1, "E": 2, "N": 1}, "C03.",
+			"an object with a declared property AND typed additionalProperties: an undeclared member of another JSON type is rejected"),
 		l3UnitT("null-typed-positions", map[string]int{"KINDS": 8208, "DEPTH": 1, "ITEMKINDS": 8192, "ARRSHAPES": 4, "N": 1, "REF": 0}, map[string]int{"KINDS": 8208, "DEPTH": 1, "ITEMKINDS": 8192, "ARRSHAPES": 4, "N": 2}, "C03.",
 			"positions of type null (a property; the items of an array with every combination of minItems/maxItems): only null is accepted there, any other JSON value is rejected"))})
 	reg(&Property{ID: "C08", Units: []Unit{
